@@ -70,7 +70,7 @@ def run(ctx):
     run_hist(ctx, PROFILE, oracle, 1500, 30000, CORPUS)
 
 
-LEVEL_TEXT = "placeholder"
-LEVEL_NOTE = "placeholder"
 TECHNIQUE = "Lean 4 invariant proofs over op lists + differential correspondence with DataReaderEntity"
-CLAIMED = False
+LEVEL_TEXT = 'Kernel-checked Lean theorems about the reader-history model for ALL operation lists: C18_bound (a KEEP_LAST(d) reader never stores more than d data samples per instance, by induction over arbitrary add/read/take/next-instance/pub ops), C18_replaces_oldest (an accepted sample removes exactly the oldest data sample of its instance and is appended), C18_keep_all, and C18_not_rejected_for_depth_partial (never rejected for depth when the instance holds only data samples; the remaining case is the recorded finding D52). The model is tied to the real DataReaderEntity by a per-op differential run (every add result, every stored list, every read/take output) and an independent oracle re-checks the property on the implementation output.'
+LEVEL_NOTE = 'Trusted: Lean kernel (axioms audited: propext, Classical.choice, Quot.sound at most); the hand-written model Model/ReaderHist.lean of data_reader_entity.rs / user_defined_data_reader.rs (handles as Nat, times as total ns, Vec as List); the hist harness that drives the real DataReaderEntity<()> / UserDefinedDataReader through the cfg(dust_dds_verif) re-export and prints canonical lines; the Python oracle. The differential run validates the model on sampled op sequences only; the theorems are about the model.'
+DESIGN_REF = 'DESIGN.md section 5 C18'
